@@ -323,7 +323,7 @@ func (c ProgCase) program() px.ProgCase {
 	for _, l := range g.lines {
 		b.WriteString(l + "\n")
 	}
-	b.WriteString("        println(\"USED\");\n    } catch e {\n        println(\"REFUSED\");\n        println(e.message);\n    }\n    println(\"AFTER\");\n}\n")
+	b.WriteString("        println(\"FINISHED\");\n    } catch e {\n        println(\"REFUSED\");\n        println(e.message);\n    }\n    println(\"AFTER\");\n}\n")
 	pc.Modules = map[string]string{"main": b.String()}
 	return pc
 }
@@ -333,7 +333,9 @@ func checkProg(c ProgCase) *pk.Failure {
 	if c.Route == "json" && !jsonRepresentable(c.V.V) {
 		return pk.Failf(sub, "bad-case", "value %s is not a JSON document", show(c.V.V))
 	}
-	vd := judge(c.V.V, c.T, mode{Explicit: c.Form == "as", JSON: c.Route == "json"})
+	// The value that crosses is the runtime value parse_json / the host produced (JSON null has
+	// already become none there), so no JSON reading of the value applies here.
+	vd := judge(c.V.V, c.T, mode{Explicit: c.Form == "as"})
 	pc := c.program()
 	head := func() string {
 		return fmt.Sprintf("%s, %s form, value via %s\n%s\n  oracle %s\n%s", c.Backend, c.Form, c.Route, c.Pair.text(), vd.word(), pc.Modules["main"])
@@ -374,7 +376,7 @@ func checkProg(c ProgCase) *pk.Failure {
 		if vd.MustNot {
 			return pk.Failf(sub, c.Backend+":admitted-not-convertible:"+sigBlame(vd.Tr.Blame), "%s\n  admitted (%s); output %q, outcome %s %q", head(), vd.Tr.Blame, out, ocText, oc.Message)
 		}
-		if oc.Class != "ok" || !strings.HasSuffix(out, "USED\nAFTER\n") {
+		if oc.Class != "ok" || !strings.HasSuffix(out, "FINISHED\nAFTER\n") {
 			return pk.Failf(sub, c.Backend+":admitted-then-failed:"+vd.word()+":"+vd.convClass()+":"+ocText, "%s\n  admitted, but the typed uses did not complete: output %q, outcome %s %q", head(), out, ocText, oc.Message)
 		}
 		if vd.May {
@@ -386,7 +388,7 @@ func checkProg(c ProgCase) *pk.Failure {
 		}
 		exp := []string{"ADMITTED\n"}
 		useOut(c.T, vd.Res, &exp)
-		exp = append(exp, "USED\n", "AFTER\n")
+		exp = append(exp, "FINISHED\n", "AFTER\n")
 		if want := strings.Join(exp, ""); want != out {
 			return pk.Failf(sub, c.Backend+":admitted-output-differs:"+vd.word()+":"+vd.convClass(), "%s\n  the typed uses of the admitted value print\n  %q, expected\n  %q (admitted value %s)", head(), out, want, show(vd.Res))
 		}
@@ -398,13 +400,13 @@ func checkProg(c ProgCase) *pk.Failure {
 		if vd.May {
 			pk.Class("doubt:convertible-refused:" + vd.convClass() + ":" + c.Backend + ":" + c.Form)
 		}
-		lines := strings.Split(out, "\n")
-		if oc.Class != "ok" || !strings.HasSuffix(out, "\nAFTER\n") || len(lines) != 4 {
+		if oc.Class != "ok" || !strings.HasSuffix(out, "\nAFTER\n") || strings.Contains(out, "FINISHED\n") {
 			return pk.Failf(sub, c.Backend+":refused-then-failed:"+ocText, "%s\n  refused, but execution did not continue normally after the catch: output %q, outcome %s %q", head(), out, ocText, oc.Message)
 		}
 		if vd.MustNot && strings.HasPrefix(c.Class, "near:") {
-			if ok, what, _ := pathNamed(lines[1], c.Path); !ok {
-				return pk.Failf(sub, c.Backend+":path-missing:"+what, "%s\n  the caught error does not name the offending %s %s:\n  %s", head(), what, pathText(c.Path), lines[1])
+			caught := strings.TrimSuffix(strings.TrimPrefix(out, "REFUSED\n"), "\nAFTER\n")
+			if ok, what, _ := pathNamed(caught, c.Path); !ok {
+				return pk.Failf(sub, c.Backend+":path-missing:"+what, "%s\n  the caught error does not name the offending %s %s:\n  %s", head(), what, pathText(c.Path), caught)
 			}
 		}
 		return nil
@@ -693,7 +695,7 @@ func TestProg(t *testing.T) {
 		for _, b := range []string{"vm", "tree"} {
 			pk.Eval()
 			c := ProgCase{Pair: p, Backend: b, Form: form, Route: route}
-			classify(p, judge(p.V.V, p.T, mode{Explicit: form == "as", JSON: route == "json"}), "prog:"+b+":"+form+":"+route)
+			classify(p, judge(p.V.V, p.T, mode{Explicit: form == "as"}), "prog:"+b+":"+form+":"+route)
 			pk.Judge(rt, c, checkProg(c))
 		}
 	})
